@@ -466,6 +466,73 @@ def f_fan():
         yield f"fan:{label}:p{pi}:r{i}r{j}", comp("Fan", sigs, blocks=blocks)
 
 
+# ----------------------------------------------------------------- F-cyc (cyclic block graphs, used by C11)
+
+def f_cyc():
+  """yields (name, design, expectation) with expectation in
+  'false' (bit-level acyclic: must equal the reference), 'converge' (true loop that settles: fixed point only),
+  'diverge' (must raise), 'once' (update_once in the cycle: must raise)."""
+  # carriers for the two loop variables P (A -> B) and R (B -> A): (label, sigs, refP, refR)
+  carriers = [
+    ("top", [("P", "wire", B(2), ()), ("R", "wire", B(2), ())], ref("P"), ref("R")),
+    ("slices", [("PR", "wire", B(4), ())], ref("PR", ("s", 0, 2)), ref("PR", ("s", 2, 4))),
+    ("fields", [("PR", "wire", Sab, ())], ref("PR", ("f", "a")), ref("PR", ("f", "b"))),
+    ("nested", [("PR", "wire", Npc, ())], ref("PR", ("f", "p"), ("f", "a")), ref("PR", ("f", "c"))),
+    ("list", [("PR", "wire", B(2), (2,))], ref("PR", ("i", 0)), ref("PR", ("i", 1))),
+    ("mixed", [("P", "wire", B(4), ()), ("R", "wire", Sab, ())], ref("P", ("s", 1, 3)), ref("R", ("f", "b"))),
+  ]
+  ins = [("in_", "in", B(4), ()), ("out", "out", B(2), ())]
+  for label, sg, P, R in carriers:
+    i2 = ref("in_", ("s", 0, 2))
+    # false loop: A: P = f(in); Q(out) = g(R).  B: R = h(P).
+    A = ("blkA", "comb", [("=", P, ("bin", "+", i2, c(2, 1))), ("=", ref("out"), ("un", "~", R))])
+    Bk = ("blkB", "comb", [("=", R, ("bin", "^", P, ref("in_", ("s", 2, 4))))])
+    extra = _cyc_fill(label, sg)
+    yield f"cyc:false:{label}", comp("CycF", ins + sg, blocks=[A, Bk] + extra), "false"
+    yield f"cyc:false-rev:{label}", comp("CycFr", ins + sg, blocks=[Bk, A] + extra), "false"
+    # false loop entered from a predecessor block (pre) and followed by a successor
+    pre = ("blkPre", "comb", [("=", ref("m"), ("bin", "+", ref("in_"), c(4, 3)))])
+    A2 = ("blkA", "comb", [("=", P, ref("m", ("s", 0, 2))), ("=", ref("q"), ("un", "~", R))])
+    post = ("blkPost", "comb", [("=", ref("out"), ("bin", "+", ref("q"), c(2, 1)))])
+    yield f"cyc:false-pred:{label}", comp("CycP", ins + sg + [("m", "wire", B(4), ()), ("q", "wire", B(2), ())], blocks=[post, Bk, A2, pre] + extra), "false"
+    # convergent true loop (monotone): P = R | in ; R = P & 2  (bit 1 latches)
+    A3 = ("blkA", "comb", [("=", P, ("bin", "|", R, i2)), ("=", ref("out"), P)])
+    B3 = ("blkB", "comb", [("=", R, ("bin", "&", P, c(2, 2)))])
+    yield f"cyc:converge:{label}", comp("CycC", ins + sg, blocks=[A3, B3] + extra), "converge"
+    # divergent loop (ring oscillator on bit 0 when in_[0] is set)
+    A4 = ("blkA", "comb", [("=", P, ("bin", "^", R, i2)), ("=", ref("out"), P)])
+    B4 = ("blkB", "comb", [("=", R, ("un", "~", P))])
+    yield f"cyc:diverge:{label}", comp("CycD", ins + sg, blocks=[A4, B4] + extra), "diverge"
+    # update_once member in the cycle
+    B5 = ("blkB", "once", [("=", R, ("bin", "^", P, ref("in_", ("s", 2, 4))))])
+    yield f"cyc:once:{label}", comp("CycO", ins + sg, blocks=[A, B5] + extra), "once"
+  # long false loops (Mamba breaks traces for SCCs of >= 10 blocks): a chain whose first block also consumes the last value
+  for n in (3, 9, 10, 12):
+    sg = [(f"x{i}", "wire", B(4), ()) for i in range(n + 1)]
+    blocks = [("b0", "comb", [("=", ref("x0"), ref("in_")), ("=", ref("out"), ref(f"x{n}", ("s", 0, 2)))])]
+    for i in range(1, n + 1):
+      blocks.append((f"b{i}", "comb", [("=", ref(f"x{i}"), ("bin", "+", ref(f"x{i - 1}"), c(4, 1)))]))
+    order = blocks[:1] + list(reversed(blocks[1:]))
+    yield f"cyc:false-ring:{n}", comp("CycR", ins + sg, blocks=order), "false"
+  # two independent false loops + an acyclic part
+  sgs = [("P", "wire", B(2), ()), ("R", "wire", B(2), ()), ("P2", "wire", B(2), ()), ("R2", "wire", B(2), ()), ("o2", "wire", B(2), ())]
+  yield "cyc:false-two-sccs", comp("Cyc2", ins + sgs, blocks=[
+    ("a1", "comb", [("=", ref("P"), ref("in_", ("s", 0, 2))), ("=", ref("o2"), ("un", "~", ref("R")))]),
+    ("b1", "comb", [("=", ref("R"), ("bin", "+", ref("P"), c(2, 1)))]),
+    ("a2", "comb", [("=", ref("P2"), ref("o2")), ("=", ref("out"), ("bin", "^", ref("R2"), ref("o2")))]),
+    ("b2", "comb", [("=", ref("R2"), ("bin", "+", ref("P2"), c(2, 3)))])]), "false"
+
+
+def _cyc_fill(label, sg):
+  """Blocks driving the bits of the carriers that the loop does not drive (single-driver discipline)."""
+  if label == "nested":
+    return [("blkFill", "comb", [("=", ref("PR", ("f", "p"), ("f", "b")), ref("in_", ("s", 1, 3)))])]
+  if label == "mixed":
+    return [("blkFill", "comb", [("=", ref("P", ("b", 0)), ref("in_", ("b", 3))), ("=", ref("P", ("b", 3)), ref("in_", ("b", 0))),
+                                 ("=", ref("R", ("f", "a")), ref("in_", ("s", 1, 3)))])]
+  return []
+
+
 FAMILIES = {"ffx": f_ffx, "fan": f_fan, "chain": f_chain, "reg": f_reg, "diamond": f_diamond, "net": f_net, "hier": f_hier}
 
 
